@@ -898,6 +898,7 @@ pub struct GenOpts {
     pub max_sessions: usize,
     pub max_files: usize,
     pub max_file_bytes: usize,
+    pub min_file_bytes: usize,
     pub allow_global: bool,
     pub interleave: bool,
     pub repeat_bias: bool,
@@ -911,6 +912,7 @@ pub fn gen_history(rng: &mut Rng, l: &Limits, o: &GenOpts) -> Vec<SessionSpec> {
         max_xorb_bytes: l.max_xorb_bytes,
         max_xorb_chunks: l.max_xorb_chunks,
         max_file: o.max_file_bytes,
+        min_file: o.min_file_bytes,
     };
     let mut salt = [0u8; 32];
     match rng.below(3) {
@@ -1025,6 +1027,7 @@ pub fn run(args: &Args, rep: &mut Report) {
         max_sessions: args.usize("max-sessions", 4),
         max_files: args.usize("max-files", 6),
         max_file_bytes: args.usize("max-file-bytes", 40 * l.target * 4),
+        min_file_bytes: args.usize("min-file-bytes", 0),
         allow_global: !args.has("no-global"),
         interleave: !args.has("no-interleave"),
         repeat_bias: args.has("repeat-bias"),
@@ -1149,6 +1152,7 @@ pub fn run_faults(args: &Args, rep: &mut Report) {
         max_sessions: 2,
         max_files: args.usize("max-files", 5),
         max_file_bytes: args.usize("max-file-bytes", 30 * l.target * 4),
+        min_file_bytes: 0,
         allow_global: false,
         interleave: false,
         repeat_bias: false,
